@@ -72,6 +72,15 @@ CLAIMED["C01"] = _entry(
     "static analysis: cols/rows unit inference, value-kind misuse, def-use expansion + linear canonical form of pad amounts, CFG per-iteration must-pass",
 )
 
+CLAIMED["C09"] = _entry(
+    "Static analysis decides that the geometry views of each container/decoration agree structurally: unit discipline (DIM) in every geometry entry point; for every configuration "
+    "(length of size x the attribute values the class branches on) the size handed to a child by keypress/mouse_event/get_cursor_coords/move_cursor_to_coords/get_pref_col is one render() "
+    "hands to it; the offsets removed when forwarding mouse/cursor moves equal the offsets added to the child's cursor; a missing child cursor (None) is tested before unpacking. "
+    "Agreement with the *rendered* cursor and the accumulating loops of Pile/Columns/ListBox are value-level and not decided (level 'other').",
+    "DESIGN.md section 3, C09; engines E2, E8 (GEOM), E6",
+    "static analysis: abstract interpretation over a finite predicate domain (size length x compared attribute values), reaching definitions, helper inlining, linear canonical forms; cols/rows unit inference",
+)
+
 _PENDING = "check not built yet in this session (planned per DESIGN.md section 3); listed here until its static rules exist and pass on the pinned tree"
 NOT_APPLICABLE = {pid: _PENDING for pid in [f"C{i:02d}" for i in range(1, 21)] if pid not in CLAIMED and pid != "C07"}
 NOT_APPLICABLE["C07"] = (
